@@ -1,10 +1,10 @@
 CONSTANTS
-  Alphabet <- L1
-  Core <- L1Core
-  Mid <- L1Mid
-  MaxAll = 2
+  Alphabet <- LB
+  Core <- LBCore
+  Mid <- LBCore
+  MaxAll = 3
   MaxMid = 3
-  MaxCore = 4
+  MaxCore = 3
   Wrappers <- NoWrap
   MaxWrap = 0
   MaxDeep = 0
